@@ -257,32 +257,54 @@ Definition show_attempt (ip_of : bytes -> bytes) (a : target * attempt_outcome) 
 
 Definition is_ps (p : probe) : bool := match p with PS _ _ => true | PW _ => false end.
 
+(* the answers of the n-th resolution (n = 0, 1, ...): SRV entries whose service is written
+   matrix-fed@2 / matrix@2 replace the plain ones from the second resolution on; a body of the
+   form first LF @2 LF second gives the well-known reply from the second request on *)
+Fixpoint srv_find (t : list (bytes * bytes * srv_outcome)) (svc q : bytes) : option srv_outcome :=
+  match t with
+  | [] => None
+  | (s, n, o) :: r => if bytes_eqb s svc && bytes_eqb n q then Some o else srv_find r svc q
+  end.
+
+Definition srv_at (t : list (bytes * bytes * srv_outcome)) (i : nat) (svc q : bytes) : srv_outcome :=
+  match (match i with O => None | S _ => srv_find t (svc ++ bs "@2") q end) with
+  | Some o => o
+  | None => match srv_find t svc q with Some o => o | None => SrvNotFound end
+  end.
+
+Definition body_at (body : bytes) (i : nat) : bytes :=
+  match split_all 10 body [] with
+  | [b1; m; b2] => if bytes_eqb m (bs "@2") then (match i with O => b1 | S _ => b2 end) else body
+  | _ => body
+  end.
+
+Definition show_pass (ip_of : bytes -> bytes) (name : bytes) (plain : bool)
+           (wk_lines : nat -> list bytes) (env : nat -> (bytes -> option bytes) * (bytes -> bytes -> srv_outcome))
+           (p : pass) : list bytes :=
+  (match p_resolution p with
+   | Some i => (if plain then wk_lines i else [])
+               ++ map show_probe (filter is_ps (probes (fst (env i)) (snd (env i)) name))
+   | None => []
+   end) ++ flat_map (show_attempt ip_of) (p_attempts p).
+
 Fixpoint run_rts (n : nat) (wks : bool) (blocked : target -> bool) (ip_of : bytes -> bytes)
-         (wk_lines : list bytes) (name : bytes)
-         (wk : bytes -> option bytes) (srv : bytes -> bytes -> srv_outcome)
-         (cache : option (list target)) (k : N) : list bytes :=
+         (wk_lines : nat -> list bytes) (name : bytes)
+         (env : nat -> (bytes -> option bytes) * (bytes -> bytes -> srv_outcome))
+         (next : nat) (cache : option (list target)) (k : N) : list bytes :=
   match n with
   | O => []
   | S n' =>
-      let cache_hit := match cache with Some (_ :: _) => true | _ => false end in
-      let looked := wks && negb cache_hit in
-      let ps := if looked
-                then (match shape_of name with ShPlain => wk_lines | _ => [] end)
-                     ++ map show_probe (filter is_ps (probes wk srv name))
-                else [] in
-      match round_trip wks blocked name (resolve wk srv name) cache k with
-      | None => ps ++ [bs "RT err"] ++ run_rts n' wks blocked ip_of wk_lines name wk srv cache k
-      | Some r =>
-          ps ++ flat_map (show_attempt ip_of) (rt_attempts r)
-             ++ [if rt_ok r then bs "RT ok" else bs "RT err"]
-             ++ run_rts n' wks blocked ip_of wk_lines name wk srv (rt_cache r) (rt_k r)
-      end
+      let plain := match shape_of name with ShPlain => true | _ => false end in
+      let r := round_trip wks blocked name (fun i => resolve (fst (env i)) (snd (env i)) name) next cache k in
+      flat_map (show_pass ip_of name plain wk_lines env) (rt_passes r)
+        ++ [if rt_ok r then bs "RT ok" else bs "RT err"]
+        ++ run_rts n' wks blocked ip_of wk_lines name env (rt_next r) (rt_cache r) (rt_k r)
   end.
 
 Record rt_case := {
   rc_name : bytes; rc_wks : bool; rc_k : N; rc_nrt : nat; rc_dead : list bytes;
   rc_allow : list bytes; rc_deny : list bytes; rc_hosts : list (bytes * bytes);
-  rc_wkmode : bytes; rc_reply : wk_reply; rc_now : Z; rc_tbl : list bytes
+  rc_wkmode : bytes; rc_reply : nat -> wk_reply; rc_now : Z; rc_tbl : list bytes
 }.
 
 Definition parse_rt_case (args : list bytes) : option rt_case :=
@@ -298,7 +320,8 @@ Definition parse_rt_case (args : list bytes) : option rt_case :=
               Some {| rc_name := name; rc_wks := bytes_eqb wksrv (bs "1"); rc_k := n_of k;
                       rc_nrt := N.to_nat (n_of nrt); rc_dead := split_all 44 dead [];
                       rc_allow := allow; rc_deny := deny; rc_hosts := pairs_of hs;
-                      rc_wkmode := wkmode; rc_reply := reply_of status cl cc ex bm body;
+                      rc_wkmode := wkmode;
+                      rc_reply := (fun i => reply_of status cl cc ex bm (body_at body i));
                       rc_now := z_of now; rc_tbl := tbl |}
           | _ => None
           end
@@ -312,22 +335,26 @@ Definition run_round_trip (args : list bytes) : bytes :=
   | None => bs "badargs"
   | Some c =>
       let ip_of := ip_lookup (rc_hosts c) in
-      let srv := srv_lookup (srv_table (length (rc_tbl c)) (rc_tbl c)) in
+      let tbl := srv_table (length (rc_tbl c)) (rc_tbl c) in
       let replying := bytes_eqb (rc_wkmode c) (bs "reply") in
       let conn := well_known_connection (rc_allow c) (rc_deny c) ip_of (rc_name c) in
-      let wk_lines := match conn with
-                      | Some a => (bs "C " ++ a) :: (if replying then [bs "P W " ++ rc_name c] else [])
-                      | None => []
-                      end in
-      let wk := fun _ : bytes =>
+      let wk_lines := fun _ : nat =>
         match conn with
-        | Some _ => if replying then match lookup (rc_now c) (rc_reply c) with WkOk a _ => Some a | WkErr => None end
-                    else None
-        | None => None
+        | Some a => (bs "C " ++ a) :: (if replying then [bs "P W " ++ rc_name c] else [])
+        | None => []
         end in
+      let env := fun i : nat =>
+        ((fun _ : bytes =>
+            match conn with
+            | Some _ => if replying
+                        then match lookup (rc_now c) (rc_reply c i) with WkOk a _ => Some a | WkErr => None end
+                        else None
+            | None => None
+            end),
+         srv_at tbl i) in
       join_bytes nl (run_rts (rc_nrt c) (rc_wks c)
                              (blocked_by (rc_dead c) (rc_allow c) (rc_deny c) ip_of) ip_of
-                             wk_lines (rc_name c) wk srv None (rc_k c))
+                             wk_lines (rc_name c) env 0 None (rc_k c))
   end.
 
 (* specification oracle: every connection the listeners accepted - for the .well-known request
@@ -351,23 +378,32 @@ Definition attempt_allowed (allowed : list target) (line : bytes) : bool :=
   | _ => false
   end.
 
-Fixpoint check_lines (allow deny : list bytes) (allowed : list target) (lines : list bytes)
-         (got_through : bool) : bytes :=
+(* [fresh] = the name is one whose resolution shows as lookups (a plain name with lookups on):
+   then a connection to an address already tried since the last lookup means the retry went
+   to the old targets instead of resolving the name again *)
+Fixpoint check_lines (allow deny : list bytes) (allowed : list target) (fresh : bool)
+         (lines : list bytes) (got_through : bool) (tried : list bytes) : bytes :=
   match lines with
   | [] => bs "ok"
   | l :: r =>
       if is_prefix (bs "C ") l then
-        if may_connectb allow deny (net_of (drop 2 l)) (drop 2 l)
-        then check_lines allow deny allowed r got_through
-        else bs "FAIL connection to an address the lists forbid: " ++ l
+        if negb (may_connectb allow deny (net_of (drop 2 l)) (drop 2 l))
+        then bs "FAIL connection to an address the lists forbid: " ++ l
+        else if fresh && mem_bytes (drop 2 l) tried
+        then bs "FAIL retry without resolving the name again: " ++ l
+        else check_lines allow deny allowed fresh r got_through
+                         (if is_prefix (bs ":443") (rev (firstn 4 (rev l))) then tried else drop 2 l :: tried)
       else if is_prefix (bs "A ") l then
         if attempt_allowed allowed l
-        then check_lines allow deny allowed r (got_through || (4 <=? N.of_nat (length (split_all 32 l []))))
+        then check_lines allow deny allowed fresh r
+                         (got_through || (4 <=? N.of_nat (length (split_all 32 l [])))) tried
         else bs "FAIL attempt not prescribed for the server name: " ++ l
       else if bytes_eqb l (bs "RT ok") then
-        if got_through then check_lines allow deny allowed r false else bs "FAIL success without a completed attempt"
-      else if bytes_eqb l (bs "RT err") then check_lines allow deny allowed r false
-      else check_lines allow deny allowed r got_through
+        if got_through then check_lines allow deny allowed fresh r false []
+        else bs "FAIL success without a completed attempt"
+      else if bytes_eqb l (bs "RT err") then check_lines allow deny allowed fresh r false []
+      else if is_prefix (bs "P ") l then check_lines allow deny allowed fresh r got_through []
+      else check_lines allow deny allowed fresh r got_through tried
   end.
 
 Definition prop_round_trip (args : list bytes) : bytes :=
@@ -376,14 +412,19 @@ Definition prop_round_trip (args : list bytes) : bytes :=
   | Some c =>
       let obs := last args [] in
       let ip_of := ip_lookup (rc_hosts c) in
-      let srv := srv_lookup (srv_table (length (rc_tbl c)) (rc_tbl c)) in
+      let tbl := srv_table (length (rc_tbl c)) (rc_tbl c) in
       let wk_addr := dest_addr ip_of (well_known_dest (rc_name c)) in
-      let wk := fun _ : bytes =>
+      let wk := fun (i : nat) (_ : bytes) =>
         if may_connectb (rc_allow c) (rc_deny c) (net_of wk_addr) wk_addr
            && bytes_eqb (rc_wkmode c) (bs "reply")
-        then option_map fst (honouredb (rc_now c) (rc_reply c)) else None in
-      check_lines (rc_allow c) (rc_deny c) (spec_targets (rc_wks c) (rc_name c) wk srv)
-                  (split_all 10 obs []) false
+        then option_map fst (honouredb (rc_now c) (rc_reply c i)) else None in
+      (* an attempt must be prescribed under the answers of the resolution in force: the first
+         or, for a retry / a later round trip, a later one *)
+      check_lines (rc_allow c) (rc_deny c)
+                  (spec_targets (rc_wks c) (rc_name c) (wk 0%nat) (srv_at tbl 0)
+                   ++ spec_targets (rc_wks c) (rc_name c) (wk 1%nat) (srv_at tbl 1))
+                  (rc_wks c && match shape_of (rc_name c) with ShPlain => true | _ => false end)
+                  (split_all 10 obs []) false []
   end.
 
 (* end-to-end dial: [mode; target; network; address handed to the dialer; nallow; allow...; deny...];
